@@ -14,6 +14,10 @@ def handlePeaks (op : String) (args : List String) : Option String :=
       -- `sepfoot <min_separation>` → the (dy,dx) offsets of the separation neighbourhood, raster order
       let sep ← parseRat? sep
       some ("ok " ++ joinSp ((sepOffsets sep).map fun o => s!"{o.1},{o.2}"))
+  | "xypix", [xs] => do
+      -- `xypix x x x ...` → the pixel index each supplied coordinate belongs to
+      let xs ← allSome (xs.map parseRat?)
+      some ("ok " ++ joinSp (xs.map fun x => toString (xyPixel x)))
   | "irafsep", [[given, fwhm, mf]] => do
       -- `irafsep <min_separation|none> <fwhm> <minsep_fwhm>` → the separation in force and the kind of neighbourhood
       let given ← (if given == "none" then some none else (parseRat? given).map some)
